@@ -140,6 +140,9 @@ func genC01(g engine.G) *engine.Case {
 	default:
 		sc = engine.GenDerivable(g, o, true, true, 2, 3)
 	}
+	if g.Pct(2) {
+		sc = engine.GenMany(g)
+	}
 	if g.Pct(15) {
 		// generated converters (ConverterGen) next to the supplied ones
 		sc.Gens = engine.GenGens(g, engine.Palette{Types: []int{0, 1, 2, 3, 4, 5}}, false)
